@@ -28,6 +28,43 @@ def h_mirror(sym, kind="stopping", W=2, T=3, E=8, max_t=4, brackets=1, max_fail=
     tw.run()
 
 
+def h_pasha_unit(sym, n=3):
+    """PASHA's resource-increase decision (unit level): soft ranking of the top two rungs with a symbolic epsilon.
+    Instance A: mode min on values v; instance B: mode max on -v; same trials in both rungs."""
+    from syne_tune.optimizer.schedulers.hyperband_pasha import PASHARungSystem
+    def mk(mode):
+        return PASHARungSystem(rung_levels=[1, 2, 4], promote_quantiles=[0.5, 0.5, 0.5], metric="m", mode=mode, resource_attr="r", max_t=8)
+    A, B = mk("min"), mk("max")
+    eps = sym.real("eps", 0, 10)
+    A.epsilon = eps
+    B.epsilon = eps
+    top = [sym.real("top%d" % i, -10, 10) for i in range(n)]
+    prev = [sym.real("prev%d" % i, -10, 10) for i in range(n)]
+    for vals in (top, prev):
+        for i in range(n):
+            for j in range(i + 1, n):
+                sym.assume(vals[i] != vals[j])                      # general position
+                d = vals[i] - vals[j]
+                sym.assume((d if d >= 0 else -d) != eps)
+    def rankings(mode, sign):
+        out = []
+        for vals in (top, prev):
+            data = sorted([(str(i), sign * v) for i, v in enumerate(vals)], key=lambda e: e[1], reverse=(mode == "max"))   # rung.data: best first
+            ids = [e[0] for e in data]
+            vs = [e[1] for e in data]
+            rk = list(range(len(ids))) if mode == "min" else list(range(len(ids) - 1, -1, -1))
+            out.append(list(zip(ids, rk, vs)))
+        return out
+    da = A._decide_resource_increase(rankings("min", 1))
+    db = B._decide_resource_increase(rankings("max", -1))
+    sym.check(da == db, "C15.pasha-resource-increase-differs", "mode min on v: increase=%s, mode max on -v: increase=%s" % (da, db))
+    if da:
+        sym.goal("increase")
+    else:
+        sym.goal("keep")
+    sym.goal("end")
+
+
 def h_status_mirror(sym, N=3, T=2):
     """TuningStatus / best-trial reporting: min on v == max on -v"""
     from syne_tune.tuning_status import TuningStatus, print_best_metric_found
@@ -75,6 +112,9 @@ def obligations(tier):
                             "pbt": ("stop",), "median": ("stop",), "fifo-rea": ("complete",), "dehb": ("pause", "resume")}[kind] + (("resume",) if kind == "sync" else ())
         obs.append(Ob(name, "props.c15:h_mirror", p, bounds=dict(T=p["T"], E=p["E"], W=p["W"], max_t=p["max_t"]), goals=goals, split=sp, budget_s=1800,
                       may_be_incomplete=not quick))
+    obs.append(Ob("C15.c[pasha-soft-ranking,n=3]", "props.c15:h_pasha_unit", dict(n=3), bounds=dict(trials_in_top_two_rungs=3, epsilon="symbolic in [0,10]"),
+                  goals=("increase", "keep", "end"), budget_s=1200,
+                  note="unit-level harness (PASHARungSystem._decide_resource_increase with rankings in the documented format): the full PASHA run needs ~25 events"))
     obs.append(Ob("C15.b[tuning-status,N=3]", "props.c15:h_status_mirror", dict(N=3, T=2), bounds=dict(results=3, trials=2), goals=("end",), budget_s=600))
     return obs
 
